@@ -23,7 +23,7 @@ from sim.oracle import snap, snap_diff, wellformed_problems
 
 PROPERTY = "C12"
 LEVEL = "exploration"
-RUNS = {"quick": 30000, "thorough": 800000}
+RUNS = {"quick": 50000, "thorough": 800000}
 WALL = {"quick": 240, "thorough": 1500}
 PARTITIONS = [{"name": "default", "env": {}}]
 FAULT_KINDS = ["mutate_parent_after_derive", "mutate_child_after_derive", "adaptive_growth", "holder_switch",
